@@ -242,6 +242,7 @@ type c9Thr struct {
 type c9Ctl struct {
 	thr []*c9Thr
 	cur int32
+	wg  sync.WaitGroup // goroutines of this scenario still alive
 }
 
 func (c *c9Ctl) park(point string) {
@@ -252,7 +253,9 @@ func (c *c9Ctl) park(point string) {
 
 func (c *c9Ctl) spawn(i int, body func()) {
 	t := c.thr[i]
+	c.wg.Add(1)
 	go func() {
+		defer c.wg.Done()
 		<-t.goCh
 		defer func() {
 			if r := recover(); r != nil {
@@ -380,10 +383,14 @@ func c9RunSched(c c9Case) (res c9Result) {
 		w.idx[d] = i
 	}
 	stepNo := 0
+	recording := true
 	var evmu sync.Mutex
 	rm.registeredDecoys.registerForDetector = func(d *DecoyRegistration) {
 		evmu.Lock()
 		defer evmu.Unlock()
+		if !recording {
+			return
+		}
 		oi, ok := w.idx[d]
 		if !ok {
 			oi = -2
@@ -393,6 +400,9 @@ func c9RunSched(c c9Case) (res c9Result) {
 	rm.registeredDecoys.updateInDetector = func(d *DecoyRegistration) {
 		evmu.Lock()
 		defer evmu.Unlock()
+		if !recording {
+			return
+		}
 		oi, ok := w.idx[d]
 		if !ok {
 			oi = -2
@@ -533,17 +543,6 @@ func c9RunSched(c c9Case) (res c9Result) {
 			break
 		}
 	}
-	// let parked goroutines go (they run to completion unobserved) so nothing leaks into the next case
-	verifhook.Set(nil)
-	tester.f = func(string, uint16) (bool, error) { return true, fmt.Errorf("drained") }
-	for _, t := range ctl.thr {
-		if !t.done {
-			select {
-			case t.goCh <- struct{}{}:
-			case <-time.After(20 * time.Millisecond):
-			}
-		}
-	}
 	// shares are posted by goroutines: wait until the count is stable
 	if c.Share {
 		deadline := time.Now().Add(1500 * time.Millisecond)
@@ -569,6 +568,30 @@ func c9RunSched(c c9Case) (res c9Result) {
 		Err:     atomic.LoadInt64(&rm.newErrRegistrations),
 		Blocked: atomic.LoadInt64(&rm.newBlocklistedPhantomReg),
 		New:     atomic.LoadInt64(&rm.newRegistrations),
+	}
+	// let parked goroutines go (they run to completion unobserved) so nothing leaks into the next case
+	evmu.Lock()
+	recording = false
+	evmu.Unlock()
+	verifhook.Set(nil)
+	tester.f = func(string, uint16) (bool, error) { return true, fmt.Errorf("drained") }
+	for _, t := range ctl.thr {
+		if !t.done {
+			select {
+			case t.goCh <- struct{}{}:
+			case <-time.After(20 * time.Millisecond):
+			}
+		}
+	}
+	// ... and wait for them: a straggler must not reach the hook of the next scenario
+	drained := make(chan struct{})
+	go func() { ctl.wg.Wait(); close(drained) }()
+	select {
+	case <-drained:
+	case <-time.After(3 * time.Second):
+		if res.Error == "" {
+			res.Error = "goroutines of the scenario did not finish after the schedule"
+		}
 	}
 	return res
 }
